@@ -172,7 +172,7 @@ def extract():
     if len(consts) < 40:
         raise ValueError("option id constants: %d" % len(consts))
     out = ["(* GENERATED on every run by vp/extract_options.py from /repo/core/src/socket/options.rs - do not edit *)",
-           "From RZ Require Import Base.Prelude Model.Engine Model.Options.", "Local Open Scope Z_scope.", ""]
+           "From RZ Require Import Base.Prelude Model.Engine Model.Options Model.EngineCfg.", "Local Open Scope Z_scope.", ""]
     out.append("Definition x_consts : list (Z * Z) := [%s]." % "; ".join(
         "(%s, %s)" % (n, zlit(consts[n])) for n in
         ["SNDBUF", "RCVBUF", "SNDHWM", "RCVHWM", "LINGER", "SUBSCRIBE", "UNSUBSCRIBE", "ROUTING_ID", "RECONNECT_IVL",
@@ -365,6 +365,49 @@ def extract():
     if len(dflt) < 25:
         raise ValueError("defaults incomplete: %d" % len(dflt))
     out.append("Definition x_defaults : list (field * oval) :=\n  [ %s ]." % ";\n    ".join(dflt))
+
+    # ---- impl From<&SocketOptions> for ZmtpEngineConfig
+    m = re.search(r"impl From<&SocketOptions> for ZmtpEngineConfig \{\s*fn from\(options: &SocketOptions\) -> Self \{(.*?)\n  \}\n\}", src, re.S)
+    if not m:
+        raise ValueError("From<&SocketOptions> for ZmtpEngineConfig shape")
+    fb = m.group(1)
+    ms = re.search(r"let security_enabled = \{(.*?)\};\s*let sndbatch_bytes", re.sub(r"#\[cfg\([^\]]*\)\]", "", fb), re.S)
+    if not ms:
+        raise ValueError("security_enabled block shape")
+    sec_txt = re.sub(r"\s+", " ", ms.group(1))
+    secs = re.findall(r"options\.([\w\.]+)", sec_txt)
+    if not re.fullmatch(r"(\s*\{ options\.[\w\.]+ \} \{ false \} \} \|\| \{)*\s*\{ options\.[\w\.]+ \} \{ false \} ", sec_txt) or len(secs) != 3:
+        raise ValueError("security_enabled is not a disjunction of three option flags: %r" % sec_txt)
+    out.append("Definition x_sec_fields : list field := [%s]." % "; ".join(field_of(x) for x in secs))
+    mc = re.search(r"let sndbatch_bytes = if options\.io_uring\.send_zerocopy \{\s*let ceiling = crate::uring::(\w+);\s*"
+                   r"if options\.sndbatch_bytes > ceiling \{.*?ceiling\s*\} else \{\s*options\.sndbatch_bytes\s*\}\s*\} else \{\s*options\.sndbatch_bytes\s*\};", fb, re.S)
+    if not mc:
+        raise ValueError("sndbatch_bytes clamp shape")
+    usrc = strip_comments(open(os.path.join(REPO, "core/src/uring/mod.rs")).read())
+    mu = re.search(r"pub const %s: usize = ([\d_ \*]+);" % mc.group(1), usrc)
+    out.append("Definition x_uring_snd_buffer : N := %d%%N." % eval(mu.group(1).replace("_", "")))
+    if not re.search(r"let sndbatch_bytes_physical =\s*calculate_required_slot_size\(sndbatch_bytes, options\.sndbatch_count\);", fb):
+        raise ValueError("sndbatch_bytes_physical shape")
+    ml = re.search(r"ZmtpEngineConfig \{(.*)\}\s*$", fb, re.S)
+    copies = []
+    for f, e in re.findall(r"(\w+): ([^,\n]+),", re.sub(r"#\[cfg\([^\]]*\)\]", "", ml.group(1))):
+        mm2 = re.fullmatch(r"options\.([\w\.]+?)(\.clone\(\))?", e.strip())
+        if mm2 and mm2.group(1) not in ("socket_type_name", "throttle_config"):
+            copies.append("(CF_%s, %s)" % (f, field_of(mm2.group(1))))
+    if len(copies) < 25:
+        raise ValueError("engine config copies: %d" % len(copies))
+    out.append("Definition x_cfg_copies : list (cfgf * field) :=\n  [ %s ]." % ";\n    ".join(copies))
+    b = fn_body(src, "calculate_required_slot_size")
+    mz = re.search(r"let max_long_frames = std::cmp::min\(max_batch_count, target_payload_bytes / (\d+)\);\s*"
+                   r"let long_frame_overhead = max_long_frames \* (\d+);\s*"
+                   r"let short_frame_overhead = max_batch_count\.saturating_sub\(max_long_frames\) \* (\d+);\s*"
+                   r"let raw_physical_size = target_payload_bytes \+ long_frame_overhead \+ short_frame_overhead;\s*"
+                   r"let page_size = unsafe \{ libc::sysconf\(libc::_SC_PAGESIZE\) as usize \};\s*"
+                   r"\(\(raw_physical_size \+ page_size - 1\) / page_size\) \* page_size", b)
+    if not mz:
+        raise ValueError("calculate_required_slot_size shape")
+    out.append("Definition x_slot_raw (target count : N) : N := (let ml := N.min count (target / %s) in target + ml * %s + (count - ml) * %s)%%N."
+               % (mz.group(1), mz.group(2), mz.group(3)))
     return "\n".join(out) + "\n"
 
 
